@@ -561,6 +561,21 @@ func TestC20_P_OldStyleRepeatable(t *testing.T) {
 				t.Fatalf("C20 [%s]: full read #%d (same node reused from #2 on) requested blocks in the order %v, the first full read in the order %v", fc.Desc, run+1, shortCids(got), shortCids(first))
 			}
 		}
+		// the same through ONE reader: read to the end, rewind, read again (and once more)
+		if rs, e := fresh().(datamodel.LargeBytesNode).AsLargeBytes(); e == nil {
+			for pass := 1; pass <= 3; pass++ {
+				fc.St.ResetLogs()
+				if _, err := rs.Seek(0, io.SeekStart); err != nil {
+					t.Fatalf("C20 [%s]: rewind: %v", fc.Desc, err)
+				}
+				if _, err := io.Copy(io.Discard, rs); err != nil {
+					t.Fatalf("C20 [%s]: pass %d through one reader: %v", fc.Desc, pass, err)
+				}
+				if got := firstOccurrences(fc.St.ReadLog()); fmt.Sprint(got) != fmt.Sprint(first) {
+					t.Fatalf("C20 [%s]: full read #%d through one rewound reader requested blocks in the order %v, a full read on a fresh node in the order %v", fc.Desc, pass, shortCids(got), shortCids(first))
+				}
+			}
+		}
 		old := strings.Contains(fc.Writer, "bs=false")
 		ev.Case(fmt.Sprintf("%s probed=%v", fc.Writer, probed), old, fmt.Sprintf("noBlockSizes:%v", old), fmt.Sprintf("end-probed-between-reads:%v", probed))
 		ev.Sample(map[string]any{"file": fc.Desc, "blocks": len(first)})
